@@ -57,9 +57,14 @@ func deliveredKey(kind string, data [][]byte) string {
 	return string(data[0])
 }
 
-func scC09(r *Run) {
+func scC09(r *Run) { runC09(r, allVariants, false) }
+
+// scC11LL: the Low-Latency clauses of C11 against the real Low-Latency muxer as origin.
+func scC11LL(r *Run) { runC09(r, []string{"ll"}, true) }
+
+func runC09(r *Run, variants []string, llLog bool) {
 	T := r.T
-	g := &muxGen{variants: allVariants, minCalls: 150, maxCalls: 900, paramChanges: false, noMidGOP: T.Chance(1, 2), negativeStart: false,
+	g := &muxGen{variants: variants, minCalls: 150, maxCalls: 900, paramChanges: false, noMidGOP: T.Chance(1, 2), negativeStart: false,
 		keyEvery: Pick(T, 0, 5, 10, 15, 30), constLeading: T.Chance(2, 3)}
 	cfg := genMuxCfg(r, g)
 	if cfg.segMin < 200*time.Millisecond {
@@ -190,7 +195,11 @@ func scC09(r *Run) {
 		cw.net.waitUntil(target)
 	}
 	r.Tracef("end: started=%v wait=%v err=%s requests=%d tracks=%d", started, cw.waitSeen, describeErr(cw.waitErr), len(cw.net.log), len(cw.tracks))
-	oracleC09(r, cw, w, cfg, lt, useMediaPrimary, endOfWrites)
+	if llLog {
+		oracleC11LL(r, cw)
+	} else {
+		oracleC09(r, cw, w, cfg, lt, useMediaPrimary, endOfWrites)
+	}
 	r.Stats.NonTrivial = cw.onTracksN > 0
 	r.Cell("c09 %s lead=%s tracks=%d", cfg.vname, lt.kind, len(cfg.tracks))
 	cw.finish()
@@ -457,4 +466,78 @@ func errKey(msg string) string {
 
 func init() {
 	register(&PropDef{ID: "C09", Quick: 600, Thorough: 12000, Profiles: []ProfileDef{{Name: "muxer-origin", Share: 1, Sc: scC09}}})
+}
+
+// oracleC11LL: in Low-Latency mode the client downloads the preload hint of each successive playlist, and asks
+// for delta updates exactly when CAN-SKIP-UNTIL was advertised.
+func oracleC11LL(r *Run, cw *cliWorld) {
+	type st struct {
+		first     *mediaPL
+		expected  string // absolute URL of the hint the client must download next ("" = a playlist is due)
+		hints     int
+		playlists int
+	}
+	streams := map[string]*st{}
+	for _, nr := range cw.net.log {
+		u := nr.req.URL
+		path := u.Path
+		switch {
+		case strings.HasSuffix(path, "index.m3u8"):
+		case strings.HasSuffix(path, ".m3u8"):
+			s := streams[path]
+			if s == nil {
+				s = &st{}
+				streams[path] = s
+			}
+			if !nr.delivered || nr.resp == nil || nr.resp.status != 200 {
+				continue
+			}
+			if s.expected != "" {
+				r.Fail("ll-request-log", "playlist-without-hint", "stream %s: the playlist was fetched again although the preload hint %s of the previous one was never requested", path, s.expected)
+				return
+			}
+			pl, err := parseMediaPlaylist(nr.resp.body)
+			if err != nil {
+				r.Fail("grammar", "media-playlist", "%v", err)
+				return
+			}
+			if s.first == nil {
+				s.first = pl
+			} else {
+				wantSkip := s.first.HasCanSkip
+				gotSkip := u.Query().Get("_HLS_skip") == "YES"
+				if wantSkip != gotSkip {
+					r.Fail("ll-request-log", "delta-update", "stream %s: CAN-SKIP-UNTIL advertised=%v but the playlist reload %s asks for a delta update=%v", path, wantSkip, nr.url, gotSkip)
+					return
+				}
+				r.Probe("ll-reload-checked")
+			}
+			s.playlists++
+			if !pl.HasPreload {
+				continue
+			}
+			ref, err := u.Parse(pl.PreloadHint)
+			if err != nil {
+				continue
+			}
+			s.expected = ref.String()
+		case strings.Contains(path, "_init"):
+		default:
+			matched := false
+			for sp, s := range streams {
+				if s.expected != "" && s.expected == nr.url {
+					s.expected = ""
+					s.hints++
+					matched = true
+					r.Probe("ll-hint-download-checked")
+					_ = sp
+					break
+				}
+			}
+			if !matched {
+				r.Fail("ll-request-log", "unhinted-download", "the client requested %s, which is not the preload hint of the latest playlist of any stream", nr.url)
+				return
+			}
+		}
+	}
 }
